@@ -180,6 +180,11 @@ func (vt *Model) StartWithSize(cmd *exec.Cmd, width int, height int) error {
 					return
 				default:
 					vt.update(seq)
+					// Deliver the events raised by this sequence now.
+					// This goroutine is the only receiver: if they were
+					// left in the channel, a later postEvent would block
+					// for ever once it is full
+					vt.drainEvents()
 				}
 			case ev := <-vt.events:
 				vt.eventHandler(ev)
@@ -316,6 +321,18 @@ func (vt *Model) String() string {
 
 func (vt *Model) postEvent(ev vaxis.Event) {
 	vt.events <- ev
+}
+
+// drainEvents hands all queued events to the event handler
+func (vt *Model) drainEvents() {
+	for {
+		select {
+		case ev := <-vt.events:
+			vt.eventHandler(ev)
+		default:
+			return
+		}
+	}
 }
 
 func (vt *Model) Attach(fn func(ev vaxis.Event)) {
